@@ -331,8 +331,12 @@ def read_dot(path: Path) -> Graph:
 
 
 def sany(module_path: Path) -> Tuple[bool, str]:
-    p = subprocess.run(["java", "-cp", JAR, "tla2sany.SANY", module_path.name], cwd=str(module_path.parent),
-                       capture_output=True, text=True)
+    tmp = workdir("sany")        # (the parser unpacks the standard modules into java.io.tmpdir and leaves them there)
+    try:
+        p = subprocess.run(["java", f"-Djava.io.tmpdir={tmp}", "-cp", JAR, "tla2sany.SANY", module_path.name],
+                           cwd=str(module_path.parent), capture_output=True, text=True)
+    finally:
+        rmtree(tmp)
     out = p.stdout + p.stderr
     ok = p.returncode == 0 and "Semantic errors" not in out and "Parse Error" not in out and "Fatal errors" not in out \
         and "*** Errors" not in out
